@@ -714,6 +714,17 @@ func assertMerge(vm *VM, t Term, merge func([]clause, []clause) []clause, env *E
 		return err
 	}
 
+	// The stored term gets its own variables, renamed apart from the caller's.
+	if len(added) > 0 {
+		raw, err := renamedCopy(added[0].raw, nil, env)
+		if err != nil {
+			return err
+		}
+		for i := range added {
+			added[i].raw = raw
+		}
+	}
+
 	u, ok := p.(*userDefined)
 	if !ok || !u.dynamic {
 		return permissionError(operationModify, permissionTypeStaticProcedure, pi.Term(), env)
